@@ -98,6 +98,7 @@ type FnTrans struct {
 	c     *Contract
 	smt   *Smt
 	name  string // display name pkg.func
+	inapplicable string // set by evalGoal when a clause of the contract cannot be evaluated; consumed by the next oblige
 	props []string
 
 	assumes []Assume
@@ -205,6 +206,20 @@ func (tr *FnTrans) assume(guard, fact, origin string) {
 }
 
 func (tr *FnTrans) oblige(kind, clause, guard, goal string, pos token.Pos) *Obligation {
+	if tr.inapplicable != "" {
+		msg := tr.inapplicable
+		tr.inapplicable = ""
+		tr.oblCnt[kind]++
+		o := &Obligation{Name: fmt.Sprintf("%s/%s#%d", tr.name, kind, tr.oblCnt[kind]), Kind: kind, Fn: tr.name, Props: tr.props,
+			Expect: "unsat", Clause: clause, tr: tr, Syntactic: true, Solver: "syntactic", Status: "failed", Answer: "syntactic",
+			Model: "the clause cannot be evaluated against the code as it is now: " + msg}
+		if pos.IsValid() {
+			p := tr.fn.Prog.Fset.Position(pos)
+			o.Pos = fmt.Sprintf("%s:%d", p.Filename, p.Line)
+		}
+		tr.obls = append(tr.obls, o)
+		return o
+	}
 	tr.reinstantiate()
 	// the goal may have introduced skolem constants: instantiate the hypotheses with them, for this
 	// obligation only
